@@ -4,6 +4,7 @@ import CfbVerif.Handle.Lemmas
 import CfbVerif.Phys.Grow
 import CfbVerif.Phys.MiniContent
 import CfbVerif.Phys.RootReach
+import CfbVerif.Phys.MiniReuse
 /-!
 # C08 — bytes gained by growing a stream read as zero, whatever was there before
 
@@ -180,5 +181,20 @@ theorem C08_new_mini_sector_zero_reachable (v4 : Bool) (ops : List GOp) :
       miniBlk p' root m = List.replicate 64 0 ∧
       (∀ m2, m2 ≠ m → m2 < (grun g0 ops).p.miniFat.size → miniBlk p' root m2 = miniBlk (grun g0 ops).p root m2) :=
   mini_zero_reachable v4 ops
+
+/-- **growing a small stream into a reused mini sector** — the case the property names ("a previous shrink
+of the same stream or the removal of other streams whose space is being reused"): when `growOneMini` takes
+the mini sector from the free list (the mini stream does not grow: the root entry's length is unchanged),
+the allocation changes nothing but the in-memory MiniFAT and its free list, and after the zero-fill the
+reused mini sector reads as 64 zeros while every other mini sector reads what it read before the step
+(`Phys/MiniReuse.lean`).  The other path (the mini stream grows by a mini sector, possibly by a sector) is
+lock-stepped. -/
+theorem C08_mini_grow_step_reuse {p p1 : P} {ids ids1 : List Nat} (h : growOneMini p ids = .ok (p1, ids1))
+    (hr : p1.rootLen = p.rootLen) (ss : SS p) {root : List Nat} (hroot : chainIds p p.rootStart = .ok root)
+    (hp : Present p root) (nd : root.Nodup) :
+    ∃ m, ids1 = ids ++ [m] ∧ (m / p.per < root.length →
+      ∃ p2, miniWriteAt p1 m 0 (List.replicate MINI 0) = .ok p2 ∧ miniBlk p2 root m = List.replicate 64 0 ∧
+        (∀ m2, m2 ≠ m → m2 / p.per < root.length → miniBlk p2 root m2 = miniBlk p root m2)) :=
+  miniGrow_step_reuse h hr ss hroot hp nd
 
 end CfbVerif.Props.C08
